@@ -155,7 +155,7 @@ func floatPromRateMerge(isRate, isCounter bool) FloatSliceMergeFunc {
 
 		resultValue := reduceResult * (extrapolateToInterval / sampledInterval)
 		if isRate {
-			resultValue = resultValue / float64(param.rangeDuration/1e9)
+			resultValue = resultValue / (float64(param.rangeDuration) / 1e9)
 		}
 		return resultValue, false
 	}
@@ -678,6 +678,9 @@ func floatResetsReducer(times []int64, values []float64, start int, end int) ([]
 
 func floatResetsMerger() FloatSliceMergeFunc {
 	return func(prevT []int64, currT []int64, prevV []float64, curV []float64, ts int64, c int, param *ReducerParams) (float64, bool) {
+		if c < 1 {
+			return 0, true
+		}
 		return executor.CalcResets(prevV, curV), false
 	}
 }
